@@ -1,0 +1,31 @@
+//go:build verif
+
+// Contracts for package phttp (registration of the HTTP guns), checked by /verif/govc. Comment-only: no code.
+package phttp
+
+// Every HTTP gun shoots at what the pre-resolution answered (the address found, or the configured target itself when the
+// lookup failed: PreResolveTargetAddr returns the target in that case), with its own configuration and answer log.
+//@ func Import#lit0
+//@ props C09
+//@ at call phttp.PreResolveTargetAddr assert [the-configured-target] arg(target) == conf.Target
+//@ at call answlog.Init assert [resolved-address-kept-whatever-the-lookup-said] conf.TargetResolved == result_of(phttp.PreResolveTargetAddr, 0) && arg(path) == conf.AnswLog.Path && arg(enabled) == conf.AnswLog.Enabled
+
+//@ func Import#lit0#lit0
+//@ props C09
+//@ may_panic true
+//@ at call phttp.NewHTTP1Gun assert [the-gun-s-own-configuration] arg(cfg) == conf && arg(answLog) == answLog
+
+//@ func Import#lit1
+//@ props C09
+//@ at call phttp.PreResolveTargetAddr assert [the-configured-target] arg(target) == conf.Target
+//@ at call answlog.Init assert [resolved-address-kept-whatever-the-lookup-said] conf.TargetResolved == result_of(phttp.PreResolveTargetAddr, 0) && arg(path) == conf.AnswLog.Path && arg(enabled) == conf.AnswLog.Enabled
+
+//@ func Import#lit1#lit0
+//@ props C09
+//@ may_panic true
+//@ at call phttp.NewHTTP2Gun assert [the-gun-s-own-configuration] arg(cfg) == conf && arg(answLog) == answLog
+//@ ensures [construction-failure-is-returned] result1 == result_of(phttp.NewHTTP2Gun, 1)
+
+//@ func Import#lit2
+//@ props C09
+//@ at call answlog.Init assert [resolved-address-is-target-and-resolved-target] conf.TargetResolved == result_of(phttp.PreResolveTargetAddr, 0) && conf.Target == result_of(phttp.PreResolveTargetAddr, 0)
